@@ -230,6 +230,11 @@ def make_func(ctx: Ctx, spec: dict, flavour: str):
             if "ret" in spec:  # a constant, typically falsy, result (None, 0, False, "", ()) for a single-output node
                 return T(spec["ret"])
             body = crc(a) if ctx.compact else a
+            if spec.get("rand"):
+                # a node that draws from the process-wide `random` module (the caller seeds it before every call)
+                import random
+
+                body = (body, random.getrandbits(24))
             if nout == 1:
                 return (fid, 0, body)
             return tuple((fid, i, body) for i in range(nout))
